@@ -673,7 +673,9 @@ def _clock():
 def _sleep(d):
     sim = cur()
     th = sim.current
-    w = sim.deadline_for(max(0.0, d))
+    if d < 0:
+        raise ValueError("sleep length must be non-negative")      # like time.sleep
+    w = sim.deadline_for(d)
     if th is None:
         sim.run_until(w)
     else:
